@@ -18,6 +18,7 @@ class Probe:
         self.fail_name = None    # restrict failpoint to one callable name
         self.count = 0
         self.counts = {}
+        self.n_raised = 0        # how often the failpoint really fired
 
     class Boom(Exception):
         pass
@@ -31,6 +32,7 @@ class Probe:
                     (self.fail_name is None or self.fail_name == name):
                 self.log.append((name, "RAISE") + tuple(
                     a for a in args if isinstance(a, (int, float))))
+                self.n_raised += 1
                 raise Probe.Boom(f"injected fault in {name} call {n}")
             self.log.append((name,) + tuple(
                 float(a) if isinstance(a, (int, float)) else None
